@@ -18,6 +18,10 @@ import (
 func init() {
 	register("C28", checkC28)
 	addBreakers("C28",
+		Breaker{Name: "account-value-validated-after-trimming-kept-raw", File: "internal/machine/json.go",
+			Old: "ValidateAccountAddress(AccountAddress(data))", New: "ValidateAccountAddress(AccountAddress(strings.TrimSpace(data)))", Expect: "DOM/value-sources"},
+		Breaker{Name: "literal-asset-validated-only-when-long", File: "internal/machine/script/compiler/compiler.go",
+			Old: "\t\tif err := machine.ValidateAsset(asset); err != nil {\n\t\t\treturn 0, nil, LogicError(c, err)\n\t\t}\n", New: "\t\tif len(asset) > 3 {\n\t\t\tif err := machine.ValidateAsset(asset); err != nil {\n\t\t\t\treturn 0, nil, LogicError(c, err)\n\t\t\t}\n\t\t}\n", Expect: "DOM/literal-validated"},
 		Breaker{Name: "metadata-account-cast-unvalidated", File: "internal/machine/vm/machine.go",
 			Old: "\t\t\tval, err = machine.NewValueFromString(res.Typ, metadata)\n\t\t\tif err != nil {\n\t\t\t\treturn err\n\t\t\t}\n", New: "\t\t\tif res.Typ == machine.TypeAccount {\n\t\t\t\tval = machine.AccountAddress(metadata)\n\t\t\t} else {\n\t\t\t\tval, err = machine.NewValueFromString(res.Typ, metadata)\n\t\t\t\tif err != nil {\n\t\t\t\t\treturn err\n\t\t\t\t}\n\t\t\t}\n", Expect: "WMC/address-conversions"},
 		Breaker{Name: "literal-asset-unvalidated", File: "internal/machine/script/compiler/compiler.go",
@@ -254,6 +258,9 @@ func ruleLiteralValidated(c *core.Ctx) {
 				alloc = a
 			}
 		}
+		if alloc != nil && (nestedInArm(cc.Body, val) || !sameCoreValue(info, d.Decl.Body, val, alloc)) {
+			return true, false
+		}
 		return true, alloc != nil && val.Pos() < alloc.Pos() && errLeaves(info, d.Decl.Body, val)
 	}
 	present, ok := check("LitAssetContext", "ValidateAsset", "asset")
@@ -325,6 +332,11 @@ func ruleValueSources(c *core.Ctx) {
 					}
 				}
 				ok := vc != nil && asg != nil && vc.Pos() < asg.Pos() && errLeaves(info, d.Decl.Body, vc)
+				if ok && (nestedInArm(cc.Body, vc) || (len(vc.Args) == 1 && coreText(info, d.Decl.Body, vc.Args[0]) != coreText(info, d.Decl.Body, asg.(*ast.AssignStmt).Rhs[0]))) {
+					// the validator runs under a further condition, or on something other than
+					// the value that is produced
+					ok = false
+				}
 				c.Check(ok, "DOM/value-sources", key+":"+name, pos(c, cc), val+" before the value is produced", "NewValueFromString produces a "+strings.TrimPrefix(name, "Type")+" from a variable or metadata string without "+val+" rejecting malformed input first")
 			}
 		}
@@ -997,4 +1009,65 @@ func ruleAddressConversions(c *core.Ctx) {
 func isBlankIdent(e ast.Expr) bool {
 	id, ok := e.(*ast.Ident)
 	return ok && id.Name == "_"
+}
+
+// nestedInArm: call sits inside a nested block of one of the arm's statements (under a further
+// condition or loop) rather than in a statement of the arm itself (or in the init/condition of an
+// `if` of the arm).
+func nestedInArm(arm []ast.Stmt, call *ast.CallExpr) bool {
+	in := func(x ast.Node) bool { return x != nil && x.Pos() <= call.Pos() && call.End() <= x.End() }
+	for _, st := range arm {
+		if !in(st) {
+			continue
+		}
+		switch v := st.(type) {
+		case *ast.IfStmt:
+			return !(in(v.Init) || in(v.Cond))
+		case *ast.AssignStmt, *ast.ExprStmt, *ast.DeclStmt, *ast.ReturnStmt:
+			return false
+		default:
+			return true
+		}
+	}
+	return false
+}
+
+// coreText renders e with type conversions removed and single-definition locals replaced by
+// their definitions: `AccountAddress(data)`, `addr` (addr := AccountAddress(data)) and `data` all
+// render as "data".
+func coreText(info *types.Info, body *ast.BlockStmt, e ast.Expr) string {
+	for i := 0; i < 6; i++ {
+		e = ast.Unparen(e)
+		if call, ok := e.(*ast.CallExpr); ok && len(call.Args) == 1 {
+			if tv, ok := info.Types[call.Fun]; ok && tv.IsType() {
+				e = call.Args[0]
+				continue
+			}
+		}
+		if _, ok := e.(*ast.Ident); ok {
+			if def := resolveLocal(info, body, e); def != e {
+				e = def
+				continue
+			}
+		}
+		break
+	}
+	return types.ExprString(e)
+}
+
+// sameCoreValue: what val validates is what alloc stores (the Inner of the constant it allocates).
+func sameCoreValue(info *types.Info, body *ast.BlockStmt, val, alloc *ast.CallExpr) bool {
+	if len(val.Args) != 1 || len(alloc.Args) != 1 {
+		return true
+	}
+	lit, ok := ast.Unparen(alloc.Args[0]).(*ast.CompositeLit)
+	if !ok {
+		return true
+	}
+	for _, el := range lit.Elts {
+		if kv, ok := el.(*ast.KeyValueExpr); ok && types.ExprString(kv.Key) == "Inner" {
+			return coreText(info, body, val.Args[0]) == coreText(info, body, kv.Value)
+		}
+	}
+	return true
 }
